@@ -100,6 +100,7 @@ func executeKeySet(t *testing.T, prop string, seed uint64, p *KeySetPlan) *core.
 				has = true
 			}
 		}
+		core.Beat()
 		res.Evals++
 		what := fmt.Sprintf("list %v (0 = the key the hello is sealed to; %d other keys share its config id)", l, sameID)
 		fail := func(class, site, f string, a ...any) {
